@@ -33,7 +33,11 @@ def build(cfg):
     batch = 2 * cfg.get("batch_blocks", 1)
     V = values_for(cfg.get("dtype", "float64"), n, batch)
     bch = (batch,) if cfg.get("batch_blocks", 1) == 1 else (batch // 2, batch - batch // 2)
-    arr = da.from_array(V, chunks=(bch, tuple(cfg["chunks"])))
+    if cfg.get("one_dim"):
+        V = np.ascontiguousarray(V[0])  # no batch axis: every block is a contiguous view of the user's array
+        arr = da.from_array(V, chunks=(tuple(cfg["chunks"]),))
+    else:
+        arr = da.from_array(V, chunks=(bch, tuple(cfg["chunks"])))
     by = da.from_array(labels, chunks=(tuple(cfg["chunks"]),)) if cfg.get("labels_dask") else labels
     from . import graphx
 
@@ -134,6 +138,9 @@ def reduce_cfgs(k_values, split_everys=(None, 2), batch_blocks=(1, 2), bb2_max_k
                     chunks=[2, 2, 2], batch_blocks=2))
     out.append(dict(kind="reduce", func="nanquantile", method="blockwise", dtype="float64", engine=None, labels=[0, 0, 1, 1, 2, NAN],
                     chunks=[2, 2, 2], batch_blocks=1, finalize_kwargs=dict(q=[0.25, 0.75])))
+    for f in ("nanmedian", "median", "nansum", "nanmax"):
+        out.append(dict(kind="reduce", func=f, method="blockwise", dtype="float64", engine=None, labels=[0, 0, 0, 1, 1, 1], chunks=[3, 3], batch_blocks=1,
+                        one_dim=True))
     out.append(dict(kind="reduce", func="first", method=None, dtype="float64", engine=None, labels=[0, 0, 1, 1, 2, 2],
                     chunks=[2, 2, 2], batch_blocks=1))
     out.append(dict(kind="reduce", func="any", method="map-reduce", dtype="bool", engine="numbagg", labels=[0, 1, 0, NAN, 1, 0],
